@@ -74,6 +74,7 @@ class StructureMetaType(MetaType):
             and isinstance(args[0], bytes)
             and issubclass(cls.__fields__[0].type, bytes)
             and not cls.__fields__[0].bits
+            and not cls.__fields__[0].offset
             and len(args[0]) == cls.__fields__[0].type.size
         ):
             # Shortcut for single char/bytes type
